@@ -72,6 +72,16 @@ type vals struct {
 	PP **inner
 	B1 box
 	B2 box
+	// fields of every numeric kind (the engine reads each through its own typed access)
+	K8  int8
+	K16 int16
+	K32 int32
+	K64 int64
+	U8  uint8
+	U16 uint16
+	U32 uint32
+	U64 uint64
+	F32 float32
 }
 
 var prioGroups = [][]string{{"||"}, {"&&"}, {"==", "!="}, {"<", "<=", ">", ">="}, {"+", "-"}, {"*", "/", "%"}}
@@ -97,6 +107,15 @@ var numLeaves = []*node{
 	{lit: "(A)$", k: kNum, leaf: func(v *vals) interface{} { return float64(v.A) }},
 	{lit: "len((S)$)", k: kNum, leaf: func(v *vals) interface{} { return float64(len(v.S)) }},
 	{lit: "len((L)$)", k: kNum, leaf: func(v *vals) interface{} { return float64(len(v.L)) }},
+	{lit: "(K8)$", k: kNum, leaf: func(v *vals) interface{} { return float64(v.K8) }},
+	{lit: "(K16)$", k: kNum, leaf: func(v *vals) interface{} { return float64(v.K16) }},
+	{lit: "(K32)$", k: kNum, leaf: func(v *vals) interface{} { return float64(v.K32) }},
+	{lit: "(K64)$", k: kNum, leaf: func(v *vals) interface{} { return float64(v.K64) }},
+	{lit: "(U8)$", k: kNum, leaf: func(v *vals) interface{} { return float64(v.U8) }},
+	{lit: "(U16)$", k: kNum, leaf: func(v *vals) interface{} { return float64(v.U16) }},
+	{lit: "(U32)$", k: kNum, leaf: func(v *vals) interface{} { return float64(v.U32) }},
+	{lit: "(U64)$", k: kNum, leaf: func(v *vals) interface{} { return float64(v.U64) }},
+	{lit: "(F32)$", k: kNum, leaf: func(v *vals) interface{} { return float64(v.F32) }},
 }
 var strLeaves = []*node{
 	{lit: "'a'", k: kStr, leaf: func(*vals) interface{} { return "a" }},
@@ -343,6 +362,15 @@ func buildType(expr string) reflect.Type {
 		{Name: "PP", Type: reflect.TypeOf((**inner)(nil))},
 		{Name: "B1", Type: reflect.TypeOf(box{})},
 		{Name: "B2", Type: reflect.TypeOf(box{})},
+		{Name: "K8", Type: reflect.TypeOf(int8(0))},
+		{Name: "K16", Type: reflect.TypeOf(int16(0))},
+		{Name: "K32", Type: reflect.TypeOf(int32(0))},
+		{Name: "K64", Type: reflect.TypeOf(int64(0))},
+		{Name: "U8", Type: reflect.TypeOf(uint8(0))},
+		{Name: "U16", Type: reflect.TypeOf(uint16(0))},
+		{Name: "U32", Type: reflect.TypeOf(uint32(0))},
+		{Name: "U64", Type: reflect.TypeOf(uint64(0))},
+		{Name: "F32", Type: reflect.TypeOf(float32(0))},
 	})
 }
 
@@ -371,6 +399,15 @@ func setVals(v reflect.Value, x *vals) {
 	}
 	v.Elem().Field(10).Set(reflect.ValueOf(x.B1))
 	v.Elem().Field(11).Set(reflect.ValueOf(x.B2))
+	v.Elem().Field(12).SetInt(int64(x.K8))
+	v.Elem().Field(13).SetInt(int64(x.K16))
+	v.Elem().Field(14).SetInt(int64(x.K32))
+	v.Elem().Field(15).SetInt(x.K64)
+	v.Elem().Field(16).SetUint(uint64(x.U8))
+	v.Elem().Field(17).SetUint(uint64(x.U16))
+	v.Elem().Field(18).SetUint(uint64(x.U32))
+	v.Elem().Field(19).SetUint(x.U64)
+	v.Elem().Field(20).SetFloat(float64(x.F32))
 }
 
 func genVals(r *mon.Rand) *vals {
@@ -382,6 +419,16 @@ func genVals(r *mon.Rand) *vals {
 		p := r.Intn(3)
 		x.P = &p
 	}
+	// small values of either sign, and the ends of each kind's range
+	x.K8 = []int8{0, 1, -1, 2, -3, 127, -128}[r.Intn(7)]
+	x.K16 = []int16{0, 1, -1, 2, -3, 32767, -32768}[r.Intn(7)]
+	x.K32 = []int32{0, 1, -1, 2, -3, 2147483647, -2147483648}[r.Intn(7)]
+	x.K64 = []int64{0, 1, -1, 2, -3, 1 << 40, -(1 << 40)}[r.Intn(7)]
+	x.U8 = []uint8{0, 1, 2, 3, 255}[r.Intn(5)]
+	x.U16 = []uint16{0, 1, 2, 3, 65535}[r.Intn(5)]
+	x.U32 = []uint32{0, 1, 2, 3, 4294967295}[r.Intn(5)]
+	x.U64 = []uint64{0, 1, 2, 3, 1 << 40}[r.Intn(5)]
+	x.F32 = []float32{0, 1, -1, 0.5, 2.5, -0.25}[r.Intn(6)]
 	return x
 }
 
